@@ -555,6 +555,44 @@ def run_icp(ck, rng, thorough):
                            "target_hex": [[float(v).hex() for v in r_] for r_ in tgts[0]], "returned": Xs[0].tolist()})
 
 
+def run_icp_f32(ck, rng, thorough):
+    """float32 clouds far from the origin (coordinates of a few thousand, as in a map frame) under a small exact motion: the result's mean
+    squared closest-point distance, measured in float64 on the float32 coordinates actually passed, is not larger than the initial one
+    beyond what single-precision positions allow."""
+    u32 = 2.0 ** -24
+    for case in range(12 if thorough else 4):
+        n = int(rng.choice([30, 40, 90, 150]))
+        off = rng.uniform(2000, 5000, 3) * rng.choice([-1.0, 1.0], 3)
+        src = (rng.uniform(-1, 1, (n, 3)) * float(rng.choice([1.0, 5.0])) + off).astype(np.float32)
+        ang = np.deg2rad(float(rng.uniform(0.3, 1.5)))
+        ax = rng.standard_normal(3)
+        ax /= np.linalg.norm(ax)
+        K = np.array([[0, -ax[2], ax[1]], [ax[2], 0, -ax[0]], [-ax[1], ax[0], 0]])
+        Rm = np.eye(3) + np.sin(ang) * K + (1 - np.cos(ang)) * K @ K
+        c = src.astype(np.float64).mean(0)
+        tgt = ((src.astype(np.float64) - c) @ Rm.T + c + rng.standard_normal(3) * 0.03).astype(np.float32)
+        tgt = tgt[rng.permutation(n)]
+        ts, tg = torch.as_tensor(src), torch.as_tensor(tgt)
+        reg = "ICP/f32/far-from-origin"
+        wit = {"N": n, "offset": off.tolist(), "angle_deg": float(np.rad2deg(ang)), "dtype": "f32"}
+        okc, out = ck.call("ICP.call", reg, "ICP", lambda: pp.module.ICP()(ts, tg), witness=wit)
+        ck.count("ICP", reg, key=(case, n, src.tobytes()))
+        if not okc:
+            continue
+        if not ck.check(getattr(out, "ltype", None) is pp.SE3_type and tuple(out.shape) == (7,) and out.dtype == torch.float32, "ICP.call", reg, "ICP",
+                        "type_or_shape", lambda: dict(wit, got=list(out.shape), dtype=str(out.dtype))):
+            continue
+        Mg = np.asarray(L.group_matrix("SE3", out.tensor().double().numpy().reshape(1, 7))[0], dtype=np.float64)
+        s64, t64 = src.astype(np.float64), tgt.astype(np.float64)
+        m0 = G.mean_closest_sq(np.eye(4), s64, t64)
+        m1 = G.mean_closest_sq(Mg, s64, t64)
+        scale = float(np.abs(t64).max() + np.abs(s64).max())
+        pos = u32 * scale                       # what a float32 transform can resolve at these coordinates
+        rr(ck, "ICP.monotone", reg, [max(0.0, m1 - m0)], 64 * pos * (np.sqrt(m0) + pos), "ICP",
+           "mean_squared_closest_point_distance_larger_than_initial", lambda i: dict(wit, mse_initial=m0, mse_result=m1, got=out.tolist()))
+        ck.mark("ICP/f32-far-from-origin")
+
+
 # ------------------------------------------------------------------------------- EPnP
 def pnp_item(rng, n):
     f = 10.0 ** rng.uniform(0, 3.5, 2)
@@ -671,6 +709,9 @@ def run(ck):
         run_alignment(ck, ck.rng("align" + dn), dn, thorough)
         run_reflection_stress(ck, ck.rng("stress" + dn), dn, thorough)
     run_icp(ck, ck.rng("icp"), thorough)
+    if ck.shard == 2 % ck.nshards:
+        run_icp_f32(ck, ck.rng("icp32"), thorough)
+    ck.require("ICP/f32-far-from-origin")
     run_pnp(ck, ck.rng("pnp"), thorough)
     for fn in ("svdtf", "svdstf"):
         ck.require(*[f"{fn}/{k}" for k in KINDS], f"{fn}/minimal-3-points", f"{fn}/reflection-corrected", f"{fn}/no-reflection",
